@@ -834,6 +834,16 @@ func Observe(format string, args ...any) {
 	s.outcome = append(s.outcome, fmt.Sprintf(format, args...))
 }
 
+// TxPoint is inserted by the instrumenter in front of every database transaction: all transactions
+// touch one object (the database), so any two of them are ordered by the explorer.
+func TxPoint(site string) {
+	s := cur
+	if s == nil || s.cur.abort {
+		return
+	}
+	Point(s.siteObj("database"), true, "tx", nil)
+}
+
 // MemPoint is inserted by the instrumenter before writes to shared-looking memory.
 func MemPoint(site string) {
 	s := cur
